@@ -245,10 +245,68 @@ macro_rules! tuple_check {
 	}};
 }
 
+/// Every container kind with element type T: the emitted text must parse back, as `Vec<T>`, to the inserted values.
+fn wide_kind<T>(rep: &Reporter, local: &mut Local, tname: &str, vals: &[T], same: impl Fn(&T, &T) -> bool)
+where
+	T: Serialize + serde::de::DeserializeOwned + Clone + Send + std::fmt::Debug + 'static,
+{
+	for a in vals {
+		for b in vals {
+			let mut ap = ArrayParams::new();
+			let ins = ap.insert(a.clone()).is_ok() && ap.insert(b.clone()).is_ok();
+			let mut op = ObjectParams::new();
+			let ins_o = op.insert("x", a.clone()).is_ok() && op.insert("y", b.clone()).is_ok();
+			let two = vec![a.clone(), b.clone()];
+			let outs: Vec<(&str, Result<Option<String>, String>)> = vec![
+				("builder", if ins { to_text(ap.to_rpc_params()) } else { Err("insert failed".into()) }),
+				("macro", to_text(rpc_params![a.clone(), b.clone()].to_rpc_params())),
+				("tuple2", to_text((a.clone(), b.clone()).to_rpc_params())),
+				("slice", to_text((&two[..]).to_rpc_params())),
+				("vec", to_text(two.clone().to_rpc_params())),
+				("array", to_text([a.clone(), b.clone()].to_rpc_params())),
+			];
+			for (kind, got) in outs {
+				let back: Option<Vec<T>> = match &got {
+					Ok(Some(t)) => serde_json::from_str::<Vec<T>>(t).ok(),
+					_ => None,
+				};
+				let ok = back.as_ref().map_or(false, |v| v.len() == 2 && same(&v[0], a) && same(&v[1], b));
+				if !ok {
+					rep.violation(&format!("{kind}:wide-value:{tname}"), &format!("{kind} of ({a:?}, {b:?}) as {tname} -> {got:?}, which does not parse back to the inserted values"), json!({"kind": kind, "type": tname}));
+				}
+				local.case_unique(&format!("wide:{kind}"));
+			}
+			// named builder: {"x":a,"y":b}
+			let got = if ins_o { to_text(op.to_rpc_params()) } else { Err("insert failed".into()) };
+			let back: Option<BTreeMap<String, T>> = match &got {
+				Ok(Some(t)) => serde_json::from_str(t).ok(),
+				_ => None,
+			};
+			let ok = back.as_ref().map_or(false, |m| m.len() == 2 && m.get("x").map_or(false, |v| same(v, a)) && m.get("y").map_or(false, |v| same(v, b)));
+			if !ok {
+				rep.violation(&format!("object:wide-value:{tname}"), &format!("ObjectParams of x={a:?}, y={b:?} as {tname} -> {got:?}, which does not parse back to the inserted values"), json!({"kind": "object", "type": tname}));
+			}
+			local.case_unique("wide:object");
+		}
+	}
+}
+
+fn wide_values(rep: &Reporter, local: &mut Local) {
+	wide_kind::<u128>(rep, local, "u128", &[0, u64::MAX as u128, u64::MAX as u128 + 1, u128::MAX], |x, y| x == y);
+	wide_kind::<i128>(rep, local, "i128", &[0, i64::MIN as i128 - 1, i128::MIN, i128::MAX], |x, y| x == y);
+	wide_kind::<f32>(rep, local, "f32", &[0.1, -0.0, f32::MAX, f32::MIN_POSITIVE, 16777217.0, 1.0e-45], |x, y| x.to_bits() == y.to_bits());
+	wide_kind::<f64>(rep, local, "f64", &[0.1, -0.0, f64::MAX, 5e-324, 0.30000000000000004, 123456789.12345679], |x, y| x.to_bits() == y.to_bits());
+	let raws: Vec<Box<serde_json::value::RawValue>> = ["123456789012345678901234567890", "-0.0", "1.0000000000000000000001", "1E2", "18446744073709551616", "{\"b\":1,\"a\":2,\"b\":3}", "\"\\u0041\""]
+		.iter()
+		.map(|t| serde_json::value::RawValue::from_string(t.to_string()).unwrap())
+		.collect();
+	wide_kind::<Box<serde_json::value::RawValue>>(rep, local, "RawValue", &raws, |x, y| x.get() == y.get());
+}
+
 pub fn check(rep: &Reporter) {
 	let maxlen = if rep.tier.thorough() { 6 } else { 5 };
 	rep.set_rule(&format!(
-		"all insert sequences of length 0..{maxlen} over {} value kinds (scalars, strings needing escapes, Unicode, nested containers, unit struct, and five Serialize impls that fail before writing / inside a sequence / inside a map value / on a non-string key / inside a struct field) into ArrayParams and into ObjectParams under 3 key schemes (incl. duplicate and escaped keys); every history is distinct by construction; rpc_params! with 0..4 arguments over the non-failing kinds, tuples of arity 1..16, slices / arrays / Vec of length 0..3, serde_json::Map, BatchRequestBuilder with 0..3 entries incl. entries whose params fail to serialise. Oracle: serde_json::to_value of each inserted value and a pair-preserving parse of the emitted text.",
+		"all insert sequences of length 0..{maxlen} over {} value kinds (scalars, strings needing escapes, Unicode, nested containers, unit struct, and five Serialize impls that fail before writing / inside a sequence / inside a map value / on a non-string key / inside a struct field) into ArrayParams and into ObjectParams under 3 key schemes (incl. duplicate and escaped keys); every history is distinct by construction; rpc_params! with 0..4 arguments over the non-failing kinds, tuples of arity 1..16, slices / arrays / Vec of length 0..3, serde_json::Map, BatchRequestBuilder with 0..3 entries incl. entries whose params fail to serialise; pairs of 128-bit integers, f32/f64 edge values and raw JSON values (30-digit number, -0.0, 1E2, duplicate keys, escapes) through every container kind, judged by a typed parse-back. Oracle: serde_json::to_value of each inserted value and a pair-preserving parse of the emitted text.",
 		VS.len()
 	));
 	rep.assume("serde_json::to_value of a value is the reference for what 'the inserted value' is");
@@ -405,6 +463,9 @@ pub fn check(rep: &Reporter) {
 		}
 		local.case_unique("vec-failing");
 	}
+	// values outside serde_json::Value's number model (128-bit integers, f32, raw JSON numbers with more digits than
+	// an f64 holds): judged by a typed parse-back, not through Value
+	wide_values(rep, &mut local);
 	// serde_json::Map
 	for a in &good {
 		for b in &good {
